@@ -170,6 +170,10 @@ func runC15(ci interface{}, st *CaseStats) error {
 			}
 			return Pass
 		}
+		if c.TSOFault%2 == 0 {
+			// the node runs with --enable-storage-metrics: the failure has to come through the metrics wrapper as well
+			return imetricsNew(sh)
+		}
 		return sh
 	}
 	var newB backend.Backend
